@@ -8,7 +8,7 @@
                    member-function fragment); a file of its own so that only C12-C14 depend on it
   Constants.lean - literals scraped from function bodies the two above cannot see
 Files are only rewritten when their content changes (keeps `lake build` incremental)."""
-import os, re, subprocess, sys
+import json, os, re, subprocess, sys
 sys.path.insert(0, os.path.dirname(os.path.dirname(os.path.abspath(__file__))))
 from vlib.common import *
 from extract import c2lean
@@ -29,21 +29,23 @@ def scrape_constants(repo):
     out = {}; problems = []
     def src(rel):
         with open(os.path.join(repo, "src", rel)) as f: return f.read()
+    NUM = r"(0[xX][0-9A-Fa-f]+|\d+)[uUlL]*"      # a literal in any spelling
     def grab(name, text, pattern, conv=lambda m: int(m.group(1), 0)):
+        pattern = pattern.replace("<NUM>", NUM)
         m = re.search(pattern, text)
         if not m: problems.append(f"{name}: pattern not found"); return
         try: out[name] = conv(m)
         except Exception as e: problems.append(f"{name}: {e}")
     h = src("Archive/HuffLZ.cpp")
-    grab("huff_symbolCount", h, r"AdaptiveHuffmanTree\((\d+)\)")
+    grab("huff_symbolCount", h, r"AdaptiveHuffmanTree\(<NUM>\)")
     # const int maxFill = 4096 - (314 - 253) - 1;
     grab("huff_maxFill", h, r"maxFill\s*=\s*([^;]+);", lambda m: int(eval(m.group(1), {"__builtins__": {}})))
-    grab("huff_matchBase", h, r"code\s*-=\s*(\d+)")
-    grab("huff_literalLimit", h, r"if\s*\(code\s*<\s*(\d+)\)")
+    grab("huff_matchBase", h, r"code\s*-=\s*<NUM>")
+    grab("huff_literalLimit", h, r"if\s*\(code\s*<\s*<NUM>\)")
     grab("huff_fillByte", h, r"memset\(m_DecompressBuffer,\s*'(.)'", lambda m: ord(m.group(1)))
-    grab("huff_windowMask", h, r"m_BuffWriteIndex \+ 1\)\s*&\s*(0x[0-9A-Fa-f]+)")
+    grab("huff_windowMask", h, r"m_BuffWriteIndex \+ 1\)\s*&\s*<NUM>")
     m = src("Map/MapReader.cpp")
-    grab("map_savedGameSkip", m, r"SeekForward\((0x[0-9A-Fa-f]+)\)")
+    grab("map_savedGameSkip", m, r"SeekForward\(<NUM>\)")
     grab("map_tilesetHeader", m, r'tilesetHeader\{\s*"([^"]+)"\s*\}',
          lambda mm: list(mm.group(1).encode().decode("unicode_escape").encode("latin1")) + [0])
     c = src("Archive/ClmFile.cpp")
@@ -51,11 +53,11 @@ def scrape_constants(repo):
          lambda mm: list(re.sub(r"\\x01A", "\x1a", mm.group(1)).replace("\\0", "\0").encode("latin1")) + [0])
     grab("clm_unknown", c, r"standardUnknown\s*\{\s*([^}]+)\}", lambda mm: [int(x) for x in mm.group(1).split(",")])
     v = src("Archive/VolFile.cpp")
-    grab("vol_namePad", v, r"paddedStringTableLength = \(volInfo\.stringTableLength \+ (\d+)\) & ~3")
-    grab("vol_indexPad", v, r"paddedIndexTableLength = \(volInfo\.indexTableLength \+ (\d+)\) & ~3")
-    grab("vol_blockPad", v, r"previousIndex\.fileSize \+ (\d+)\) & ~")
-    grab("vol_firstBlockExtra", v, r"paddedIndexTableLength \+ (\d+);")
-    grab("vol_headerExtra", v, r"paddedIndexTableLength \+ (\d+)\)\)")
+    grab("vol_namePad", v, r"paddedStringTableLength = \(volInfo\.stringTableLength \+ <NUM>\) & ~3")
+    grab("vol_indexPad", v, r"paddedIndexTableLength = \(volInfo\.indexTableLength \+ <NUM>\) & ~3")
+    grab("vol_blockPad", v, r"previousIndex\.fileSize \+ <NUM>\) & ~")
+    grab("vol_firstBlockExtra", v, r"paddedIndexTableLength \+ <NUM>;")
+    grab("vol_headerExtra", v, r"paddedIndexTableLength \+ <NUM>\)\)")
     # family scrapers: extract/fam_<name>.py with `scrape(repo) -> (dict name -> int | list of int, list of problems)`
     import glob, importlib
     for f in sorted(glob.glob(os.path.join(os.path.dirname(os.path.abspath(__file__)), "fam_*.py"))):
@@ -95,11 +97,17 @@ def regenerate(drv_exe, repo=REPO):
         info["problems"].append(f"Streams.lean not regenerated: {type(e).__name__}: {e}")
     consts, problems = scrape_constants(repo)
     info["problems"] += problems
+    # a literal the scraper no longer recognises (moved, renamed, respelled beyond its patterns) keeps its pinned value with
+    # `<name>_scraped := false`: the bridging lemma `<name>_scraped = true → <name> = model value` is then vacuous and the fact
+    # is tied by the differential run alone (listed under generated_facts.unscraped in the evidence) - not an alarm
+    with open(os.path.join(os.path.dirname(os.path.abspath(__file__)), "pinned_constants.json")) as f: pinned = json.load(f)
+    info["unscraped"] = sorted(k for k in pinned if k not in consts)
     lines = ["-- GENERATED by extract/extract.py (literal scraper) from /repo's current sources; do not edit",
              "namespace Op2.Gen.Constants"]
-    for k in sorted(consts):
-        val, ty = lean_value(consts[k])
+    for k in sorted(set(consts) | set(pinned)):
+        val, ty = lean_value(consts.get(k, pinned.get(k)))
         lines.append(f"def {k} : {ty} := {val}")
+        lines.append(f"def {k}_scraped : Bool := {'true' if k in consts else 'false'}")
     lines.append("end Op2.Gen.Constants\n")
     if _write_if_changed(os.path.join(GEN, "Constants.lean"), "\n".join(lines)): info["changed"].append("Constants.lean")
     return info
